@@ -123,6 +123,10 @@ func runCU(c cuCase) (res AppRun) {
 	if c.Out == nil {
 		c.Out = &faultWriter{Accept: -1}
 	}
+	// (stats and lint open their files by name: the same contents are on disk)
+	if theApp.inited {
+		defer writeFiles(c.Files)()
+	}
 	cu := utils.CmdUtils{
 		WithFileReaders: func(fileNames []string, cb func([]io.Reader) error) error {
 			streams := make([]io.Reader, len(fileNames))
